@@ -52,7 +52,8 @@ def gen_pcm_equal_case(rng):
         entries[0][1] = t
     held = [[a, rng.choice([rng.randint(1, 200), -rng.randint(1, 50)])] for a in rng.sample(assets, rng.randint(0, len(assets)))]
     return {'op': 'pcm', 'kind': 'long_short', 'param': 1.0, 'equity': float(rng.randint(10000, 1000000)), 'fee': ['zero'],
-            'prices': [[a, float(rng.randint(5, 300))] for a in assets], 'held': held, 'universe': list(assets), 'alpha': [],
+            'prices': [[a, float(rng.randint(5, 300))] for a in assets], 'held': held,
+            'universe': (list(assets) if rng.random() < 0.5 else rng.sample(assets, rng.randint(0, len(assets) - 1))), 'alpha': [],
             'alpha_dynamic': entries, 'signal': rng.choice([1.0, 0.5, 2.0]), 'opt': ['equal', rng.choice([1.0, 2.0, 0.5, 1.5])], 't': t,
             'stream': 'pcm-equal-weight'}
 
